@@ -16,6 +16,8 @@ func Specs() map[string]*Spec {
 		ID: "C05", Level: "exploration", Main: "inst", Variants: []string{"inst"}, Block: 4,
 		QuickWall: 4 * time.Minute, ThoroughWall: 20 * time.Minute, BlockWall: 15 * time.Minute,
 		Nontrivial: "input",
+		RequireProbes: []string{"exhaustive_prefix_units", "returned_tree", "returned_error", "entry_file", "entry_expr", "linearity_pairs", "kind_prefix", "kind_pump", "kind_random-bytes", "kind_tags-file", "kind_tags-template", "kind_tags-nested",
+			"kind_expr-seq", "kind_truncate-tag", "kind_splice", "sched_lockstep", "sched_random-q1", "sched_random-q7", "sched_rr-q1", "chan_ops", "switches"},
 		Rule: "every byte-prefix of every corpus item (testdata/*.soy and every string literal of the repository's *_test.go files; raw, wrapped in a template, and as a standalone expression) " +
 			"is enumerated exhaustively; then seeded units of 100 inputs each (token deletions/duplications/swaps/splices of corpus items, sequences of up to N tags from the tag dictionary at file/template/nested level, " +
 			"expression atom sequences, inputs pumped to 16-64KB, random bytes). Each input is parsed as the main task of a two-task simulation (scanner goroutine + parser) under one of four seeded schedules; " +
@@ -29,6 +31,8 @@ func Specs() map[string]*Spec {
 	}
 	m["C18"] = &Spec{
 		ID: "C18", Level: "exploration", Main: "inst", Variants: []string{"inst", "plain"}, Block: 4,
+		RequireProbes: []string{"exhaustive_prefix_units", "sequences", "tasks_spawned", "outcome_ok", "outcome_error", "entry_file", "entry_expr", "entry_globals", "entry_compile", "kind_compile-unnamed", "kind_quoted-attr-error",
+			"kind_quoted-attr-trailing", "kind_globals-error", "kind_trailing", "kind_trailing-lexerror", "kind_plural-error", "kind_runtime-error-path", "native_sequences"},
 		Post: func(e *Env, s *Spec, agg *Agg, cov map[string]interface{}) error {
 			// cross-check with the real runtime: the un-instrumented build parses the same sequences and
 			// the goroutine dump is searched for scanner frames once it has settled
